@@ -636,6 +636,11 @@ fn reassociate_applications<'a>(acc: Option<Term<'a>>, term: &Term<'a>) -> Term<
             ),
             errors: vec![],
         },
+        // A parenthesized application is an operand of the surrounding chain, not a continuation
+        // of it.
+        Variant::Application(_, _) if term.group && acc.is_some() => {
+            reassociate_applications(None, term)
+        }
         Variant::Application(applicand, argument) => {
             return if argument.group {
                 if let Some(acc) = acc {
@@ -908,6 +913,11 @@ fn reassociate_products_and_quotients<'a>(
             ),
             errors: vec![],
         },
+        // A parenthesized product or quotient is an operand of the surrounding chain, not a
+        // continuation of it.
+        Variant::Product(_, _) | Variant::Quotient(_, _) if term.group && acc.is_some() => {
+            reassociate_products_and_quotients(None, term)
+        }
         Variant::Product(term1, term2) => {
             return if term2.group {
                 if let Some(acc) = acc {
@@ -1170,6 +1180,11 @@ fn reassociate_sums_and_differences<'a>(
             variant: Variant::Negation(Rc::new(reassociate_sums_and_differences(None, subterm))),
             errors: vec![],
         },
+        // A parenthesized sum or difference is an operand of the surrounding chain, not a
+        // continuation of it.
+        Variant::Sum(_, _) | Variant::Difference(_, _) if term.group && acc.is_some() => {
+            reassociate_sums_and_differences(None, term)
+        }
         Variant::Sum(term1, term2) => {
             return if term2.group {
                 if let Some(acc) = acc {
